@@ -26,7 +26,14 @@ class Z(Core.Component):
     pass
 
 
-TYPES = {'X': X, 'Y': Y, 'Z': Z}
+class F(Core.Component):
+    """A component that is falsy while empty (a container-like component defining __len__)."""
+
+    def __len__(self):
+        return 0
+
+
+TYPES = {'X': X, 'Y': Y, 'Z': Z, 'F': F}
 CLASSES = ['Agent', 'A', 'A1', 'B', 'Environment', 'E']
 
 META = {
@@ -51,11 +58,13 @@ class World:
 
 
 class Harness:
-    def __init__(self, op_classes=None, op_types=('X', 'Y'), subclassing=True):
+    def __init__(self, op_classes=None, op_types=('X', 'Y'), subclassing=True, extras=False):
         self.op_classes = list(op_classes or CLASSES)
         self.op_types = list(op_types)
         self.subclassing = subclassing
-        self.config = {'op_classes': self.op_classes, 'op_types': self.op_types, 'subclassing': subclassing}
+        self.extras = extras      # components owned by a second model, the first model finishing, cloned classes
+        self.config = {'op_classes': self.op_classes, 'op_types': self.op_types, 'subclassing': subclassing,
+                       'extras': extras}
         self.cn = Canon()
         self._ops = []
         for c in self.op_classes:
@@ -64,6 +73,12 @@ class Harness:
                 self._ops.append(['detach', c, T])
             self._ops.append(['tag', c, 0])
             self._ops.append(['tag', c, 3])
+        if extras:
+            self._ops.append(['complete'])
+            for c in self.op_classes:
+                for T in self.op_types:
+                    self._ops.append(['attach2', c, T])
+            self._ops.append(['clone', 'A'])
 
     def fresh(self):
         w = World()
@@ -84,7 +99,10 @@ class Harness:
         w.cls = {'Agent': Core.Agent, 'A': A, 'A1': A1, 'B': B, 'Environment': Core.Environment, 'E': E,
                  'SpaceWorld': Envs.SpaceWorld}
         w.shared = {T: TYPES[T](A, w.model) for T in ('X', 'Y')}      # ONE object that may be attached to several classes
-        w.comp = {(c, T): TYPES[T](w.cls[c], w.model) for c in CLASSES for T in ('X', 'Y')}
+        w.comp = {(c, T): TYPES[T](w.cls[c], w.model) for c in CLASSES for T in ('X', 'Y', 'F')}
+        w.m2 = new_model(seed=2)      # a later model in the same process: its components are offered to the same classes
+        w.comp2 = {(c, T): TYPES[T](w.cls[c], w.m2) for c in CLASSES for T in ('X', 'Y', 'F')}
+        w.ns = {'__module__': __name__}      # ONE namespace dict a class factory passes to type() again and again
         w.ref = {c: {'comps': [], 'tag': 0} for c in w.cls}
         w.last = None
         return w
@@ -106,17 +124,51 @@ class Harness:
         return ops
 
     def apply(self, w, op):
-        kind, c = op[0], op[1]
+        kind = op[0]
+        if kind == 'complete':
+            w.model.complete()      # the model the first components belong to has finished; classes outlive it
+            w.last = ('complete',)
+            return
+        c = op[1]
+        if kind == 'clone':
+            # a class re-created from another class's namespace (what a class decorator that rebuilds the class
+            # does): a new class - it starts with an empty store and the default tag, and shares nothing
+            if 'A_clone' in w.cls:
+                return
+            src = w.cls[c]
+            w.cls['A_clone'] = type(src)(src.__name__, src.__bases__, dict(src.__dict__))
+            w.ref['A_clone'] = {'comps': [], 'tag': 0}
+            for T in ('X', 'Y', 'F'):
+                w.comp[('A_clone', T)] = TYPES[T](w.cls['A_clone'], w.model)
+                w.comp2[('A_clone', T)] = TYPES[T](w.cls['A_clone'], w.m2)
+            w.last = ('clone',)
+            return
+        if kind == 'attach2':
+            T = op[2]
+            cls, ref = w.cls[c], w.ref[c]
+            if T in ref['comps']:
+                # also when the component already attached belongs to a model that has finished: a duplicate is a
+                # duplicate until it is removed
+                self._rejected(w, lambda: cls.add_class_component(w.comp2[(c, T)]), ValueError,
+                               f'duplicate attach of {T} (owned by a second model) to {c}')
+                w.last = ('attach2', 'rejected')
+            else:
+                cls.add_class_component(w.comp2[(c, T)])
+                ref['comps'].append(T)
+                ref.setdefault('m2', set()).add(T)
+                w.last = ('attach2', 'ok')
+            return
         if kind == 'subclass':
             # a class defined later starts with an empty store and the default tag NONE, whatever its parent holds
             name = 'N_' + c
             real_name = name
             if name in w.cls:
                 name = name + '#2'          # second live class with the very same __name__ / __qualname__ / module
-            w.cls[name] = type(w.cls[c])(real_name, (w.cls[c],), {'__module__': __name__})
+            w.cls[name] = type(w.cls[c])(real_name, (w.cls[c],), w.ns)
             w.ref[name] = {'comps': [], 'tag': 0}
-            for T in ('X', 'Y'):
+            for T in ('X', 'Y', 'F'):
                 w.comp[(name, T)] = TYPES[T](w.cls[name], w.model)
+                w.comp2[(name, T)] = TYPES[T](w.cls[name], w.m2)
             w.last = ('subclass', c)
             return
         cls, ref = w.cls[c], w.ref[c]
@@ -147,6 +199,7 @@ class Harness:
                 cls.remove_class_component(TYPES[T])
                 ref['comps'].remove(T)
                 ref.get('shared', set()).discard(T)
+                ref.get('m2', set()).discard(T)
                 w.last = ('detach', 'ok')
             else:
                 self._rejected(w, lambda: cls.remove_class_component(TYPES[T]), Core.ComponentNotFoundError,
@@ -174,12 +227,13 @@ class Harness:
             if len(cls) != len(ref['comps']):
                 raise Violation(f'{what}: len(class) shows another class\'s components', expected=len(ref['comps']),
                                 observed=len(cls))
-            for T in ('X', 'Y', 'Z'):
+            for T in ('X', 'Y', 'Z', 'F'):
                 has = T in ref['comps']
                 if (TYPES[T] in cls) != has or cls.has_class_component(TYPES[T]) != has:
                     raise Violation(f'{what}: {T} in class', expected=has, observed=TYPES[T] in cls)
                 got = cls[TYPES[T]]
-                want = (w.shared[T] if T in ref.get('shared', ()) else w.comp[(c, T)]) if has else None
+                want = (w.shared[T] if T in ref.get('shared', ()) else w.comp2[(c, T)] if T in ref.get('m2', ()) else
+                        w.comp[(c, T)]) if has else None
                 if got is not want:
                     raise Violation(f'{what}: class[{T}] answers the wrong component',
                                     expected=f'{c}.{T}' if has else None, observed=self._cname(w, got))
@@ -244,11 +298,13 @@ class Harness:
         # the harness's own component objects come first, in a fixed order: operations refer to them by identity, so
         # they must keep stable names in the canonical form (two states that differ in WHICH object sits in a store
         # are different states)
-        pool = [w.shared[T] for T in sorted(w.shared)] + [w.comp[k] for k in sorted(w.comp)]
+        pool = [w.shared[T] for T in sorted(w.shared)] + [w.comp[k] for k in sorted(w.comp)] + \
+               [w.comp2[k] for k in sorted(w.comp2)]
         return self.cn(pool, [(c, w.cls[c].components, w.cls[c].tag, w.cls[c].id) for c in w.cls])
 
     def refstate(self, w):
-        return tuple((c, tuple(w.ref[c]['comps']), w.ref[c]['tag']) for c in w.cls)
+        return tuple((c, tuple(w.ref[c]['comps']), w.ref[c]['tag'], tuple(sorted(w.ref[c].get('m2', ())))) for c in w.cls) + \
+            (w.model.is_running(),)
 
     def outcome(self, w):
         return (self.refstate(w), w.last)
@@ -272,8 +328,18 @@ def run(ctx):
     ctx.leg('core_fixpoint', **r)
     if not r.get('fixpoint'):
         ctx.cap('core_fixpoint: fixpoint not reached')
+    if ctx.violations:
+        return
+    # falsy components, components owned by a second model (before / after the first model finished), a cloned class
+    h3 = Harness(['A', 'A1'], ('X', 'F'), subclassing=False, extras=True)
+    d3 = 4 if ctx.tier == 'quick' else 5
+    r = hbfs.explore(ctx, h3, 'second_model_and_falsy', max_depth=d3, procs=ctx.procs)
+    ctx.leg('second_model_and_falsy', **r)
+    if not r.get('fixpoint'):
+        ctx.caps.append(f'second_model_and_falsy: depth bound {d3} (all histories up to that depth covered)')
 
 
 def replay(case):
     c = case['config']
-    hbfs.replay_case(Harness(c.get('op_classes'), c.get('op_types', ('X', 'Y')), c.get('subclassing', True)), case)
+    hbfs.replay_case(Harness(c.get('op_classes'), c.get('op_types', ('X', 'Y')), c.get('subclassing', True),
+                             c.get('extras', False)), case)
